@@ -53,7 +53,9 @@ def container_events(env, rng, thorough):
                ("a+a", lambda: a1 + a2), ("a-a", lambda: a1 - a2), ("a*a", lambda: a1 * a2), ("a/a", lambda: a1 / a2), ("aq+aq", lambda: aq + aq2),
                ("aq*aq", lambda: aq * aq2), ("aq2-aq", lambda: aq2 - aq), ("a*2", lambda: a1 * 2.0), ("2-a", lambda: 2.0 - a1),
                ("a.GetValues(u)", lambda: a1.GetValues(a2.GetUnit())), ("s.GetValue(u)", lambda: s1.GetValue(s2.GetUnit())),
-               ("f.ChangingIndex", lambda: f1.ChangingIndex(1, s2)), ("f.IndexAsScalar", lambda: f1.IndexAsScalar(0)),
+               ("f.ChangingIndex", lambda: f1.ChangingIndex(1, s2)), ("f.ChangingIndex(number)", lambda: f1.ChangingIndex(1, 9.5)),
+               ("f.ChangingIndex(same unit)", lambda: f1.ChangingIndex(0, Scalar(7.5, f1.GetUnit(), f1.GetCategory()))), ("f.ChangingIndex(tuple)", lambda: f1.ChangingIndex(2, (8.5,))),
+               ("f.ChangingIndex(keep unit)", lambda: f1.ChangingIndex(0, s1, use_value_unit=False)), ("f.IndexAsScalar", lambda: f1.IndexAsScalar(0)),
                ("s<s", lambda: s1 < s2), ("s==s", lambda: s1 == s2), ("a==a", lambda: a1 == a2), ("fs<fs", lambda: fs1 < fs2),
                ("fs.GetValue(u)", lambda: fs1.GetValue(fs2.GetUnit())), ("IsValid", lambda: [x.IsValid() for x in (s1, a1, f1, fs1)]),
                ("repr/str", lambda: [repr(x) + str(x) for x in objs]), ("a.CreateCopy(unit)", lambda: a1.CreateCopy(unit=a2.GetUnit())),
@@ -65,9 +67,14 @@ def container_events(env, rng, thorough):
         P.outcome(fn)
         post = proj(objs, conts)
         ev.append({"op": "Operand", "call": name, "pre": pre, "post": post})
-        x = rng.choice(objs)
+        x = rng.choice(objs + [sq, sq2, f1 * f1, stwo])
+        def cold_pickle(y):
+            # dumps, then a registration (which empties the database's quantity cache), then loads
+            data = pickle.dumps(y)
+            env.db.AddCategory("verif scratch category", "length", override=True)
+            return pickle.loads(data)
         for cname, cf in (("copy", copy.copy), ("deepcopy", copy.deepcopy), ("CreateCopy", lambda y: y.CreateCopy())) + (
-                (("pickle", lambda y: pickle.loads(pickle.dumps(y))),) if type(x).__name__ in ("Scalar", "FixedArray") else ()):
+                (("pickle", lambda y: pickle.loads(pickle.dumps(y))), ("pickle loaded after a registration", cold_pickle)) if type(x).__name__ in ("Scalar", "FixedArray") else ()):
             o = P.outcome(cf, x)
             if o[0] == "ok":
                 y = o[1]
